@@ -533,6 +533,10 @@ impl Datamodel for RFsmExpressionDatamodel {
             create_data_arc(option_to_data_value(&event.invoke_id)),
         );
         event_props.insert(EVENT_VARIABLE_FIELD_DATA.to_string(), data_value);
+        // W3C: the fields of _event are read-only, like _event itself.
+        for field in event_props.values_mut() {
+            field.set_readonly(true);
+        }
 
         let mut ds = self.global_data.lock().unwrap();
         let event_name = EVENT_VARIABLE_NAME.to_string();
